@@ -96,6 +96,14 @@ func (f *SQLFormatter) formatStatement(stmt ast.Statement) error {
 	case *ast.MergeStatement:
 		return f.formatMergeStatement(s)
 	default:
+		// Statements without a dedicated layout (TRUNCATE, SHOW, DESCRIBE, ...) are written
+		// the way the AST serialises them, rather than failing the whole format run.
+		if s, ok := stmt.(interface{ SQL() string }); ok {
+			if text := s.SQL(); text != "" {
+				f.builder.WriteString(text)
+				return nil
+			}
+		}
 		return fmt.Errorf("unsupported statement type: %T", stmt)
 	}
 }
